@@ -238,6 +238,7 @@ def rand_view(rng):
 
 def check_views(drv, rng, V, stats, n):
     reqs, meta = [], []
+    obs_reqs, obs_meta = [], []
     for i in range(n):
         v = rand_view(rng)
         stats["evaluations"] += 1
@@ -269,6 +270,8 @@ def check_views(drv, rng, V, stats, n):
             v4 = GameState.from_json(os_["state"])
             if v3 != v or v4 != v or canon_d(v3.as_dict) != canon_d(d) or od["reward"] != ob.reward or od["end"] != ob.end or od["info"] != ob.info:
                 V.fail("observation-roundtrip", "the view / reward / end flag inside an encoded observation is not the one that was encoded", {"kind": "view", "json": d})
+            obs_reqs.append({"op": "obsrt", "j": od})
+            obs_meta.append(od)
         except Exception as e:
             V.fail("observation-encode-raises", f"encoding / decoding an observation raised {e!r}", {"kind": "view", "json": d})
         # views differing in exactly one element of one part are different
@@ -294,6 +297,11 @@ def check_views(drv, rng, V, stats, n):
                    {"kind": "view-pair", "a": d, "b": u.as_dict})
         reqs.append({"op": "viewrt", "j": json.loads(json.dumps(d))})
         meta.append(d)
+    # the model's observation codec (theorem C15_observation) reproduces the real encoding of every observation
+    for od, m in zip(obs_meta, drv.ask_many(obs_reqs)):
+        stats["observations"] = stats.get("observations", 0) + 1
+        if not m["ok"] or canon_d(m["j"]["state"]) != canon_d(od["state"]) or m["j"]["reward"] != od["reward"] or m["j"]["end"] != od["end"] or m["j"]["info"] != od["info"]:
+            V.fail("observation-model", "the model's observation codec does not reproduce the real encoding of an observation", {"kind": "observation", "json": od, "model": m})
     reps = drv.ask_many(reqs)
     canon = canon_d
     for d, m in zip(meta, reps):
@@ -344,7 +352,7 @@ def main(prop, tier):
                     if prop == "C14" else
                     "random views over all six parts incl. blocks and data with non-default size/type; dictionary and JSON round trips in the real code and in the model; every response of real coordinator sessions checked for framing and for carrying the held view; non-trivial = view with blocks or non-default data fields (distinct encodings)"),
            "samples": stats["samples"][:2], "malformed_kinds": stats["bad_kinds"], "malformed_refused_by_real": stats["bad_refused"],
-           "malformed_accepted_by_real": stats["bad_accepted"], "session_events": coord_stats.get("events", 0),
+           "malformed_accepted_by_real": stats["bad_accepted"], "session_events": coord_stats.get("events", 0), "observations_through_model_codec": stats.get("observations", 0),
            "out_of_scope_disagreements": other, "proof_failures": V.proof_failures}
     write_evidence(prop, tier, "proof", cov, T.s(), nviol,
                    ["values of a wrong leaf type that Python accepts silently (a number as a service name, IPv6 literals) are not generated"])
